@@ -79,6 +79,9 @@ Section Artefacts.
   (* multilinear_pc/data_structures.rs *)
   Definition mlpc_commitment := STuple [SU64; G1].
   Definition mlpc_proof := STuple [SVec G2].
+  Definition mlpc_params := STuple [SU64; SVec (SVec G1); SVec (SVec G2); G1; G2; SVec G1].
+  Definition mlpc_ck := STuple [SU64; SVec (SVec G1); SVec (SVec G2); G1; G2].
+  Definition mlpc_vk := STuple [SU64; G1; G2; SVec G1].
 
   Definition all_schemas : list schema :=
     [kzg_universal_params; kzg_powers; kzg_vk; kzg_commitment; kzg_randomness; kzg_proof;
@@ -90,7 +93,7 @@ Section Artefacts.
      ligero_params; brakedown_params;
      batch_lc_proof kzg_proof_list; batch_lc_proof ipa_proof_list; batch_lc_proof pst13_proof_list;
      batch_lc_proof hyrax_batch_proof; batch_lc_proof lincode_batch_proof;
-     mlpc_commitment; mlpc_proof].
+     mlpc_commitment; mlpc_proof; mlpc_params; mlpc_ck; mlpc_vk].
 End Artefacts.
 
 (* the four instantiations used by the harness: BLS12-381 (G1 48/96, G2 96/192, Fr 32) and
